@@ -8,7 +8,7 @@ def p_parts():
     from ._bookkeeping import p_bookkeeping
     from ._sorted import p_sorted
     from ._generic import optional_parts
-    return [p_bookkeeping, p_sorted] + optional_parts(("_options", "p_options"), ("_handles", "p_handles_statistics"), ("_units", "p_units"), ("_statdecode", "p_statdecode"))
+    return [p_bookkeeping, p_sorted] + optional_parts(("_options", "p_options"), ("_handles", "p_handles_statistics"), ("_units", "p_units"), ("_statdecode", "p_statdecode"), ("_many", "p_many"))
 
 
 def run(ctx):
